@@ -51,7 +51,8 @@ fn run_checker(core: Arc<Problem>, problem: &Value, matrices: &[Value], solution
 }
 
 fn norm_msg(m: &str) -> String {
-    // strip ids/numbers so that the signature names the rule, not the instance
+    // the checker rule that speaks: its message without quoted ids, numbers and punctuation, first five words
+    // ("load mismatch at stop 3 in tour 'x'" and "load mismatch at stops 3, 5 in tour 'x'" are one rule)
     let mut out = String::new();
     let mut in_quote = false;
     for c in m.chars() {
@@ -59,12 +60,13 @@ fn norm_msg(m: &str) -> String {
             in_quote = !in_quote;
             continue;
         }
-        if in_quote || c.is_ascii_digit() {
+        if in_quote || c.is_ascii_digit() || ",:;.()[]{}<>".contains(c) {
             continue;
         }
         out.push(c);
     }
-    clip(out.split_whitespace().collect::<Vec<_>>().join(" ").as_str(), 70)
+    let words: Vec<String> = out.split_whitespace().map(|w| if w == "stops" { "stop".to_string() } else { w.to_string() }).take(5).collect();
+    words.join(" ")
 }
 
 struct Mutant {
